@@ -10,6 +10,7 @@ import MosVerif.Model.Router
 -- @component malformed MosVerif.Listeners.runMalformed
 -- @component serve MosVerif.Listeners.runServe
 -- @component rawhttp MosVerif.Listeners.runRawHttp
+-- @component dohgetpad MosVerif.Listeners.runDohGetPad
 -- @component refusedopt MosVerif.Listeners.runRefusedOpt
 -- @component mixstress MosVerif.Listeners.runMixStress
 -- @component udpsize MosVerif.Listeners.runUdpSize
@@ -70,6 +71,25 @@ def runRawHttp (_case impl : String) : String × String :=
     else if kvGet itoks "next" != some "ok" then "viol:stopped-serving"
     else "ok"
   ("next=ok", v)
+
+/-- `dohgetpad`: a DoH GET whose `dns` value is the base64 of a bare 12-octet header with QDCOUNT=1, padded with
+CR/LF (which base64 decoding skips) up to the encoded length of a preceding victim query. The decoded message is
+those 12 octets: `unpackMsg` fails on them (the announced question is missing; corpus/unpack), so the
+listener rejects; what lies behind them in the pooled buffer is another request's data (C20) and must never be
+parsed or echoed. -/
+def runDohGetPad (case impl : String) : String × String :=
+  let n := (kvNat (words case) "rounds").getD 0
+  let it := words impl
+  let v :=
+    if impl == "panic" then "viol:panic"
+    else match kvNat it "leaked", kvNat it "accepted", kvNat it "victims" with
+      | some l, some a, some vq =>
+        if l ≠ 0 then "viol:C20:recycled-buffer-of-another-request-echoed"
+        else if a ≠ 0 then "viol:C01:undecodable-message-accepted"
+        else if vq ≠ n then "viol:C03:missing-response"
+        else "ok"
+      | _, _, _ => "unparsed"
+  (s!"leaked=0 accepted=0 victims={n} of={n}", v)
 
 /-- `refusedopt`: REFUSED answers produced outside the request handler (client limiter, too many queries in flight
 on a connection). The scenario must produce at least one refusal; every response — refused or answered — carries
